@@ -92,8 +92,8 @@ func (c nextCase) String() string {
 // instants; kit's Parse+Next against the independent parser and the brute-force
 // search, plus "strictly after t" and Next(Next(t)-1ns) == Next(t).
 func TestNextRapid(t *testing.T) {
-	sec := vk.Sec("NextRapid")
-	vk.Check(t, 6000, 640000, func(rt *rapid.T) {
+	sec := vk.Sec(t.Name())
+	vk.Check(t, 36000, 3200000, func(rt *rapid.T) {
 		o := genOpt(rt)
 		e := genExpr(rt, o)
 		text := e.text()
@@ -211,14 +211,14 @@ func genDuration(rt *rapid.T) string {
 // TestEveryRapid: "@every d" yields t truncated to the second plus d, where d is
 // at least one second (and, as constantdelay.go documents, loses its sub-second part).
 func TestEveryRapid(t *testing.T) {
-	sec := vk.Sec("EveryRapid")
+	sec := vk.Sec(t.Name())
 	descOpts := []optSet{}
 	for _, o := range namedOpts {
 		if o.ref.Descriptors {
 			descOpts = append(descOpts, o)
 		}
 	}
-	vk.Check(t, 3000, 160000, func(rt *rapid.T) {
+	vk.Check(t, 20000, 800000, func(rt *rapid.T) {
 		o := rapid.SampledFrom(descOpts).Draw(rt, "opt")
 		z := genZone(rt)
 		prefix := ""
